@@ -494,11 +494,12 @@ class XMLReader(object):
         self.check_mandatory_arguments(check_args, fmt, root.tag, root)
 
         # Instantiate the current odML object with the parsed attributes.
-        obj = fmt.create()
         try:
             obj = fmt.create(**arguments)
         except Exception as exc:
             self.error(str(exc), root)
+            # When errors are ignored, the object keeps the attributes it accepts.
+            obj = self._create_with_accepted(fmt, arguments)
 
         if insert_children:
             for child in children:
@@ -510,6 +511,29 @@ class XMLReader(object):
                                (child.format().name, root.tag, str(exc)), root)
 
         return obj
+
+    @staticmethod
+    def _create_with_accepted(fmt, arguments):
+        """
+        Creates an odML object with those of the parsed attributes it accepts;
+        an attribute that makes the creation fail - alone or together with the
+        attributes accepted before it - is left out.
+
+        :param fmt: odML class of the object.
+        :param arguments: dictionary of the parsed attributes.
+        :returns: the created odML object.
+        """
+        accepted = {}
+        for key, val in arguments.items():
+            trial = dict(accepted)
+            trial[key] = val
+            try:
+                fmt.create(**trial)
+                accepted = trial
+            except Exception:
+                pass
+
+        return fmt.create(**accepted)
 
     # function 'parse_element' requires the captialisation of 'parse_odML'
     # to properly parse the root of an odML document.
